@@ -14,7 +14,7 @@ def rows(ids):
         prop = sid.split("-")[0]
         res = []
         p = os.path.join(SEEDED, sid, "results.txt")
-        for l in open(p) if os.path.exists(p) else []:
+        for l in open(p, errors="replace") if os.path.exists(p) else []:
             m = LINE.match(l)
             if m:
                 res.append(m.groups())
@@ -52,7 +52,8 @@ r1 = [i for i in ids if re.match(r"C\d\d-[AB]$", i)]
 r2 = [i for i in ids if re.match(r"C\d\d-2[ABC]$", i)]
 r3 = [i for i in ids if re.match(r"C\d\d-3[AB]$", i)]
 r4 = [i for i in ids if re.match(r"C\d\d-4[AB]$", i)]
-for name, grp in (("Round 1", r1), ("Round 2", r2), ("Round 3", r3), ("Round 4", r4)):
+r5 = [i for i in ids if re.match(r"C\d\d-5F\d\d[ABC]$", i)]
+for name, grp in (("Round 1", r1), ("Round 2", r2), ("Round 3", r3), ("Round 4", r4), ("Round 5 (file-focused; id = property named by the agent - focus area - letter)", r5)):
     print("\n%s:\n" % name)
     table(grp)
     rr = rows(grp) if "--write-meta" not in sys.argv else []
